@@ -126,3 +126,191 @@ theorem advShapes_walk_iff (items : List Ix) : ∀ (e : Nat) (dims : Shape) (P :
           simp [advShapes, isBasic]
 
 end TdVerif.C03
+
+namespace TdVerif.C03
+open TorchSpec Td
+
+theorem mapM_ok_of_forall {α β : Type} {f : α → Except Err β} :
+    ∀ (l : List α), (∀ a ∈ l, ∃ b, f a = .ok b) → ∃ bs, l.mapM f = .ok bs ∧ bs.length = l.length := by
+  intro l h
+  obtain ⟨bs, h1, h2⟩ := mapM_ok_forall₂ (Q := fun _ _ => True) l (fun a ha => by
+    obtain ⟨b, hb⟩ := h a ha; exact ⟨b, hb, trivial⟩)
+  exact ⟨bs, h1, h2.length_eq.symm⟩
+
+/-- a write through an Ellipsis-free tuple is accepted only if torch accepts the index on the batch shape
+    (one entry has exactly the batch shape) -/
+theorem setitem_tuple_ok_inv (td : TD) (items : List Ix) (v : Shape) (ws) (hstrict : [] ∈ td.leaves)
+    (hn : noEll items = true) (h : setitem td (.tuple items) v = .ok ws) : ∃ R, index td.bs items = .ok R := by
+  have hany : items.any (· = Ix.ell) = false := by
+    simp only [noEll, List.all_eq_true, bne_iff_ne, ne_eq] at hn
+    simpa using hn
+  simp only [setitem, hany, Bool.false_eq_true, if_false, bind, Except.bind, PyIndex.items] at h
+  split at h
+  · cases h
+  · split at h
+    · cases h
+    · rename_i direct hd
+      obtain ⟨w, hw⟩ := mapM_ok_mem td.leaves direct hd [] hstrict
+      obtain ⟨R, hR, -, -⟩ := setIndex_ok hw
+      exact ⟨R, by simpa using hR⟩
+
+/-- a write through an Ellipsis-free tuple succeeds when torch accepts the index on the batch shape and the value can be
+    broadcast to the indexed region of every entry -/
+theorem setitem_tuple_ok (td : TD) (items : List Ix) (v : Shape) (R : IndexResult)
+    (hn : noEll items = true) (h : index td.bs items = .ok R)
+    (hv : ∀ feat ∈ td.leaves, valueOk v (R.shape ++ feat) = true)
+    (hvn : ∀ nd ∈ td.nested, ∀ feat ∈ nd.leaves, valueOk v (R.shape ++ (nd.extra ++ feat)) = true) :
+    ∃ ws, setitem td (.tuple items) v = .ok ws ∧
+      ws.length = td.leaves.length + (td.nested.map (·.leaves.length)).sum := by
+  have hany : items.any (· = Ix.ell) = false := by
+    simp only [noEll, List.all_eq_true, bne_iff_ne, ne_eq] at hn
+    simpa using hn
+  have hs := (index_inv h).1
+  have hc : checkIndexNdim (.tuple items) td.bs.length = .ok () := (checkIndexNdim_ok_iff items _).mpr hs
+  have leafOk : ∀ feat, valueOk v (R.shape ++ feat) = true → ∃ w, setIndex (td.bs ++ feat) items v = .ok w := by
+    intro feat hvf
+    obtain ⟨R', hR', hshape, -, -⟩ := leaf_commutes td.bs feat items R hn h
+    refine ⟨fun c' => ((coords R'.shape).reverse.find? (fun c => R'.src c == c')).map (valueCoord v R'.shape), ?_⟩
+    simp only [setIndex, hR']
+    rw [if_pos (by rw [hshape]; exact hvf)]
+  obtain ⟨direct, hd, hdl⟩ := mapM_ok_of_forall (f := fun feat => setIndex (td.bs ++ feat) items v) td.leaves
+    (fun feat hf => leafOk feat (hv feat hf))
+  obtain ⟨nested, hnd, hndq⟩ := mapM_ok_forall₂
+    (f := fun (nd : Nested) => nd.leaves.mapM (fun feat => setIndex (td.bs ++ nd.extra ++ feat) items v))
+    (Q := fun (nd : Nested) (r : List (List Nat → Option (List Nat))) => r.length = nd.leaves.length) td.nested
+    (fun nd hndm => by
+      obtain ⟨ls, h1, h2⟩ := mapM_ok_of_forall (f := fun feat => setIndex (td.bs ++ nd.extra ++ feat) items v) nd.leaves
+        (fun feat hf => by
+          have := leafOk (nd.extra ++ feat) (hvn nd hndm feat hf)
+          simpa [List.append_assoc] using this)
+      exact ⟨ls, h1, h2⟩)
+  refine ⟨direct ++ nested.flatten, ?_, ?_⟩
+  · simp only [setitem, hany, Bool.false_eq_true, if_false, bind, Except.bind, PyIndex.items, hc, hd, hnd, pure, Except.pure]
+  · have : ∀ (l : List Nested) (r : List (List (List Nat → Option (List Nat)))),
+        Forall2 (fun (nd : Nested) r => r.length = nd.leaves.length) l r →
+        r.flatten.length = (l.map (·.leaves.length)).sum := by
+      intro l r hf
+      induction hf with
+      | nil => rfl
+      | cons hab _ ih => simp [hab, ih]
+    simp [hdl, this _ _ hndq]
+
+end TdVerif.C03
+
+namespace TdVerif.C03
+open TorchSpec Td
+
+/-- `value.expand(indexed_bs)` (what `__setitem__` does to a value whose batch is a trailing part of the indexed
+    batch) followed by torch's write selects, for every coordinate of the indexed region, the same element of the
+    original value as torch's own right-aligned broadcast of the unexpanded value -/
+theorem valueCoord_expand_left (out pre v : Shape) (c : List Nat) (hlen : (pre ++ v).length ≤ out.length) :
+    (valueCoord (pre ++ v) out c).drop pre.length = valueCoord v out c := by
+  have h1 : (pre ++ v).length - out.length = 0 := by omega
+  have h2 : v.length - out.length = 0 := by simp at hlen; omega
+  simp only [valueCoord, h1, h2, List.replicate_zero, List.nil_append, List.drop_zero]
+  rw [List.drop_zipWith, List.drop_append_of_le_length (Nat.le_refl _)]
+  simp only [List.drop_drop]
+  have e1 : List.drop pre.length pre = [] := by simp
+  have e2 : out.length - (pre ++ v).length + pre.length = out.length - v.length := by
+    simp only [List.length_append] at hlen ⊢; omega
+  rw [e1, e2, List.nil_append]
+
+end TdVerif.C03
+
+namespace TdVerif.C03
+open TorchSpec Td
+
+/-- number of source dims a plan addresses -/
+def consumed : List Piece → Nat
+  | [] => 0
+  | .sel .. :: r => 1 + consumed r
+  | .sl .. :: r => 1 + consumed r
+  | .new :: r => consumed r
+  | .adv ns _ cols :: r => min ns.length cols.length + consumed r
+
+theorem walkSrc_length (b : List Nat) (P : List Piece) : ∀ s, (walkSrc b P s).length = consumed P := by
+  induction P with
+  | nil => intro s; rfl
+  | cons p r ih => intro s; cases p <;> simp [walkSrc, consumed, ih] <;> omega
+
+theorem consumed_append (P Q : List Piece) : consumed (P ++ Q) = consumed P + consumed Q := by
+  induction P with
+  | nil => simp [consumed]
+  | cons p r ih => cases p <;> simp [consumed, ih] <;> omega
+
+theorem consumed_fulls (dims : Shape) : consumed (dims.map Piece.full) = dims.length := by
+  induction dims with
+  | nil => rfl
+  | cons n r ih => simp [consumed, Piece.full, ih]; omega
+
+/-- torch's plan addresses every source dim exactly once -/
+theorem walk_consumed (items : List Ix) : ∀ (e : Nat) (dims : Shape) (P : List Piece),
+    walk e dims items = .ok P → consumed P = dims.length := by
+  induction items with
+  | nil => intro e dims P h; simp [walk] at h; subst h; exact consumed_fulls dims
+  | cons x r ih =>
+    intro e dims P h
+    cases x with
+    | none =>
+      simp only [walk] at h
+      obtain ⟨P', h1, rfl⟩ := map_ok h
+      simpa [consumed] using ih _ _ _ h1
+    | ell =>
+      simp only [walk] at h
+      obtain ⟨P', h1, rfl⟩ := map_ok h
+      have := ih _ _ _ h1
+      rw [consumed_append, consumed_fulls, this]
+      simp; omega
+    | mask s d =>
+      simp only [walk] at h
+      split at h
+      · rename_i hs
+        obtain ⟨P', h1, rfl⟩ := map_ok h
+        have := ih _ _ _ h1
+        have hlen : s.length ≤ dims.length := by
+          have := congrArg List.length hs.2; simp at this; omega
+        simp [consumed, maskPiece, this]; omega
+      · cases h
+    | int i =>
+      cases dims with
+      | nil => simp [walk] at h
+      | cons n ds =>
+        simp only [walk] at h
+        obtain ⟨P', h1, rfl, -⟩ := consSel_ok h
+        simp [consumed, ih _ _ _ h1]; omega
+    | slice a b c =>
+      cases dims with
+      | nil => simp [walk] at h
+      | cons n ds =>
+        simp only [walk] at h
+        obtain ⟨P', s, e', st', h1, -, -, rfl⟩ := consSlice_ok h
+        simp [consumed, ih _ _ _ h1]; omega
+    | list l =>
+      cases dims with
+      | nil => simp [walk] at h
+      | cons n ds =>
+        simp only [walk] at h
+        obtain ⟨P', h1, rfl⟩ := consAdv_ok h
+        simp [consumed, ih _ _ _ h1]; omega
+    | range a b c =>
+      cases dims with
+      | nil => simp [walk] at h
+      | cons n ds =>
+        simp only [walk] at h
+        obtain ⟨P', h1, rfl⟩ := consAdv_ok h
+        simp [consumed, ih _ _ _ h1]; omega
+    | tensor s d =>
+      cases dims with
+      | nil => cases s <;> simp [walk] at h
+      | cons n ds =>
+        cases s with
+        | nil =>
+          simp only [walk] at h
+          obtain ⟨P', h1, rfl, -⟩ := consSel_ok h
+          simp [consumed, ih _ _ _ h1]; omega
+        | cons m s =>
+          simp only [walk] at h
+          obtain ⟨P', h1, rfl⟩ := consAdv_ok h
+          simp [consumed, ih _ _ _ h1]; omega
+
+end TdVerif.C03
